@@ -33,6 +33,23 @@ fn dei<'a, I: TrustedLen + DoubleEndedIterator + 'a>(i: I) -> BD<'a, I::Item> {
     Box::new(i)
 }
 
+// ---- "is this type declared TrustedLen?" decided at compile time (inherent const beats trait const) ----
+struct Declared<T>(std::marker::PhantomData<T>);
+trait NotDeclared {
+    const TRUSTED: bool = false;
+}
+impl<T> NotDeclared for Declared<T> {}
+impl<T: TrustedLen> Declared<T> {
+    const TRUSTED: bool = true;
+}
+type ScanFn = fn(&mut f64, f64) -> Option<f64>;
+type ScanTy = std::iter::Scan<std::vec::IntoIter<f64>, f64, ScanFn>;
+type FilterTy = std::iter::Filter<std::vec::IntoIter<f64>, fn(&f64) -> bool>;
+fn scan_stop(st: &mut f64, x: f64) -> Option<f64> {
+    *st += 1.0;
+    if *st > 2.0 { None } else { Some(x) }
+}
+
 // ---- items -> cells ---------------------------------------------------------------------------
 trait Obs {
     fn put(&self, mask: u8, out: &mut Vec<Cell>);
@@ -822,6 +839,33 @@ fn main() {
                 observe_rel(&|| { let mut b: BT<f64> = Box::new(xs.titer()); let r: &mut dyn TrustedLen<Item = f64> = &mut *b; let h = TrustedLen::len(&r); let v: Vec<f64> = r.collect(); assert_eq!(h, v.len()); fwd(v.into_iter()) }, steps)
             });
         }
+    }
+
+    // adaptors that can stop early or drop items must not be handed out as TrustedLen: Scan (its closure
+    // may return None) and Filter.  cell: upper bound minus items really yielded if the library declares
+    // the type TrustedLen (decided at compile time), else 0
+    for len in 0..=maxlen {
+        let xs = series(len, 0);
+        let declared = <Declared<ScanTy>>::TRUSTED;
+        em.case("exact", &format!("fn=std_scan len={} declared={}{}", len, declared, nt(len)),
+            &format!("{:?}.into_iter().scan(0.0, |st, x| {{ *st += 1.0; if *st > 2.0 {{ None }} else {{ Some(x) }} }}) is declared TrustedLen = {}: upper bound of size_hint minus number of items yielded", xs, declared),
+            || "(zeros 1%nat)".to_string(),
+            || {
+                let mut it = xs.clone().into_iter().scan(0.0, scan_stop as ScanFn);
+                let up = it.size_hint().1.unwrap_or(usize::MAX) as i128;
+                let c = count_rest(&mut it) as i128;
+                vec![Cell::Int(if declared { up - c } else { 0 })]
+            });
+        let declared_f = <Declared<FilterTy>>::TRUSTED;
+        em.case("exact", &format!("fn=std_filter len={} declared={}{}", len, declared_f, nt(len)),
+            &format!("{:?}.into_iter().filter(|x| *x > 2.0) is declared TrustedLen = {}: upper bound minus items yielded", xs, declared_f),
+            || "(zeros 1%nat)".to_string(),
+            || {
+                let mut it = xs.clone().into_iter().filter((|x: &f64| *x > 2.0) as fn(&f64) -> bool);
+                let up = it.size_hint().1.unwrap_or(usize::MAX) as i128;
+                let c = count_rest(&mut it) as i128;
+                vec![Cell::Int(if declared_f { up - c } else { 0 })]
+            });
     }
 
     // =========================================================================================
